@@ -470,6 +470,15 @@ def main(argv=None):
                 variant = base
             else:
                 r = run_verus_unit(repo, unit_name, variant, workdir, log, only_fns)
+            if r["status"] == "undecided" and any("number of loops changed: expected 0" in u for u in r.get("undecided", [])):
+                # a loop was added to a loop-free function under contract: look for a refutation on the paths with at most one
+                # iteration of it (R32).  Only a refutation counts; anything else leaves the verdict undecided.
+                ra = run_verus_unit(repo, unit_name, dict(variant or {}, unroll_extra_loops=True), workdir, log, only_fns)
+                log("  loop added to a loop-free function; bounded refutation search (R32, <= 1 iteration) -> %s" % ra["status"])
+                if ra.get("failures"):
+                    ra["full_variant_undecided"] = r.get("undecided", [])
+                    ra["bounded_note"] = "refuted on the paths with at most one iteration of the added loop (R32)"
+                    r = ra
             results.append(r)
             log("  -> %s  obligations=%s discharged=%s  %.1fs" % (r["status"], r.get("obligations"), r.get("discharged"), r.get("wall_s", 0)))
             if r["status"] == "pass":
